@@ -35,12 +35,14 @@ package lex
 //@ func intersect
 //@   requires csShape(a) && csSorted(a) && csShape(b) && csSorted(b)
 //@   ensures csShape(result) && csSorted(result)
-//@   ensures forall x in 0..1114112 :: csIn(result, x) <==> csIn(a, x) && csIn(b, x)
+//@   ensures forall x in 0..1114112 :: csMem(result, x) ==> csMem(a, x) && csMem(b, x)
+//@   ensures forall x in 0..1114112 :: csMem(a, x) && csMem(b, x) ==> csMem(result, x)
 //@   loop 1:
 //@     invariant 0 <= i && i <= len(a) && i % 2 == 0 && 0 <= e && e <= len(b) && e % 2 == 0
 //@     invariant fresh(out) && csShape(out) && csSorted(out)
 //@     invariant forall k in 0..len(out) :: (i < len(a) && e < len(b)) ==> (out[k] < a[i] || out[k] < b[e])
-//@     invariant forall x in 0..1114112 :: ((i < len(a) && x < a[i]) || (e < len(b) && x < b[e]) || i >= len(a) || e >= len(b)) ==> (csIn(out, x) <==> csIn(a, x) && csIn(b, x))
+//@     invariant forall x in 0..1114112 :: csMem(out, x) ==> csMem(a, x) && csMem(b, x)
+//@     invariant forall x in 0..1114112 :: (((i < len(a) && e < len(b)) ==> (x < a[i] || x < b[e])) && csMem(a, x) && csMem(b, x)) ==> csMem(out, x)
 
 //@ func CharsetOptions.maxRune
 //@   ensures result == (opts.ScanBytes ? 255 : 1114111)
